@@ -8,6 +8,7 @@ import (
 	"strconv"
 
 	"verif/engine/build"
+	"verif/engine/props/c01"
 	"verif/engine/props/c06"
 	"verif/engine/props/core"
 )
@@ -18,6 +19,7 @@ var checks = map[string]struct {
 	level string
 	fn    checkFn
 }{
+	"C01": {"translation_validation", c01.Run},
 	"C06": {"model_checking", c06.Run},
 }
 
